@@ -134,11 +134,16 @@ RECIPES = {
     },
     "C03": {
         "level": "model_checking",
+        "mc": {"quick": [("MC_Range", "MC_Range_q")], "thorough": [("MC_Range", "MC_Range_t")]},
         "families": {"quick": [("elf", 10, 4), ("elfcorrupt", 14, 3)], "thorough": [("elf", 60, 8), ("elfcorrupt", 80, 8)]},
         "reasons": ("value", "panic"),
         "tags": ["q:section_data", "q:segment_data", "q:section_data_as_strtab", "q:section_data_as_notes",
                  "q:segment_data_as_notes", "q:section_data_as_rels", "q:section_data_as_relas", "q:shdrs_with_strtab"],
-        "rule": "B: generated objects (both classes/orders; overlapping, zero-length, EOF-touching, gapped sections; NOBITS; "
+        "rule": "A: minimal object + payload; caller-made section/segment headers with offset x size over {0,1,64,65,L-1,L,L+1,"
+                "2^31,2^32-1,2^63,2^64-1} x {0,1,23,24,25,L-64,L-63,L,...} x {PROGBITS,STRTAB,NOTE,NOBITS,REL} x SHF_COMPRESSED, "
+                "p_memsz != p_filesz: TLC checks 'ok => exactly the designated range inside the file, NOBITS empty, not fitting "
+                "=> error' on the spec and emits each case as a session (open + 4 views) replayed on the crate; "
+                "B: generated objects (both classes/orders; overlapping, zero-length, EOF-touching, gapped sections; NOBITS; "
                 "SHF_COMPRESSED with fitting / truncated chdr; p_filesz != p_memsz) and structurally corrupted variants; every "
                 "section/segment header as parsed plus mutated copies (offset/size in {0,1,len-1,len,len+1,2^31..2^64-1}) "
                 "through section_data, segment_data and every typed view; each returned slice is projected to its (start,len) "
@@ -198,10 +203,14 @@ RECIPES = {
     },
     "C18": {
         "level": "model_checking",
+        "mc": {"quick": [("MC_Prefix", "MC_Prefix_q", 12)], "thorough": [("MC_Prefix", "MC_Prefix_t", 14)]},
         "families": {"quick": [("prefix", 2, 4)], "thorough": [("prefixall", 1, 6), ("prefix", 12, 6)]},
         "reasons": ("value", "panic"),
         "tags": Q_ALL,
-        "rule": "B: objects laid out with tables early; every structure boundary +-1 (thorough: every prefix length) and appended "
+        "rule": "A: a template object built in TLA+ from the ABI (7 sections: names, .dynstr, .dynsym, .dynamic, note, text; "
+                "PT_DYNAMIC, PT_NOTE; tables early), EVERY prefix length 0..len (quick: ELF32 MSB, 498 prefixes; thorough: all four "
+                "encodings) x 21 queries: TLC checks PrefixRel on the spec and emits every prefix as a session replayed on the crate; "
+                "B: objects laid out with tables early; every structure boundary +-1 (thorough: every prefix length) and appended "
                 "suffixes; the full query sweep on each prefix; TLC checks (i) the answer equals the spec's semantics on the prefix "
                 "and (ii) the spec's answer on the prefix is an error or equals its answer on the complete file (PrefixRel)",
         "assumptions": COMMON_ASSUME + ["'appending changes no answer' is read as: non-error answers are unchanged"],
